@@ -1,5 +1,6 @@
 """C18 — Format footprints add up from the tree exactly (fibertree/model/format.py)."""
 import itertools
+import json
 import coqlit as L
 import ftutil as U
 
@@ -60,6 +61,11 @@ def gen_case(rng, depth=None):
             else:
                 r[f] = rng.choice(WIDTHS)
         raw.append(r)
+    if depth >= 2 and rng.random() < 0.3:
+        # one common specification for several ranks (handed over as one shared dict by run_impl)
+        src = next((r for r in raw if r is not None), None)
+        if src is not None:
+            raw = [dict(src) if (r is not None and rng.random() < 0.8) else r for r in raw]
     root = None if rng.random() < 0.3 else {k: rng.choice(WIDTHS) for k in ["hbits", "pbits"] if rng.random() < 0.7}
     pts = points_of(tree, depth, shapes, rng)
     # the tensor's OWN per-rank format attribute (Tensor.setFormat) is independent of the
@@ -147,11 +153,19 @@ def run_impl(case):
     for rid, f in zip(ids, case.get("tfmt") or []):
         T.setFormat(rid, f)
     spec = {}
+    shared = {}
     for rid, r in zip(ids, case["raw"]):
         if r is not None:
-            spec[rid] = copy.deepcopy(r)
+            # ranks given the same specification share ONE dict object (dict.fromkeys(ids, {...}), a YAML
+            # anchor): reading a rank's specification must not consume it
+            key = json.dumps(r, sort_keys=True)
+            if key not in shared:
+                shared[key] = copy.deepcopy(r)
+            spec[rid] = shared[key]
     if case["root"] is not None:
         spec["root"] = dict(case["root"])
+    # the same specification object serves two Format objects; the second one is the one observed
+    Format(T, spec)
     fm = Format(T, spec)
 
     def q(fn, *a):
